@@ -72,6 +72,13 @@ func SwarmKnobs(rng *rand.Rand) core.Knobs {
 	return k
 }
 
+// drawMaxGas: block gas limit of the genesis consensus params (none, roomy, tight). Only profiles whose
+// oracle compares executions of the same block sequence use it; with a finite limit a block's later
+// transactions can be refused for gas, which is the same on every replica.
+func drawMaxGas(rng *rand.Rand) int64 {
+	return []int64{-1, -1, 40000000, 8000000}[rng.Intn(4)]
+}
+
 func allGens(rng *rand.Rand) []gen.Generator {
 	all := gen.All()
 	// swarm: each generator enabled with probability 0.7, at least two. The adversarial clients that
@@ -101,6 +108,7 @@ func init() {
 			"distinct = distinct fingerprints (sequence of fault classes + multiset of tx kind/result counts).",
 		MakeSetup: func(rng *rand.Rand, tier string, seed uint64) *Setup {
 			k := SwarmKnobs(rng)
+			k.MaxGas = drawMaxGas(rng)
 			su := &Setup{Knobs: k, Sess: gen.NewSession()}
 			nrep := 3 + rng.Intn(3)
 			if tier == "thorough" {
